@@ -39,7 +39,11 @@ CHECKS = {
         'OP_ELSE per OP_IF, any nesting depth and length); agree_if_missing_endif for never-closed conditionals; never_valid_when_core_rejects_structured; '
         'standard_spends_agree (P2PKH, P2PK, HTLC with IF/ELSE/CLTV, arbitrary good signatures/keys/hashes/witness); decode_num = CScriptNum::set_vch; vm_compute '
         'refutation witnesses for every deviating opcode and every excluded conditional shape. Tie: exhaustive opcode x small-stack correspondence of lib_eval '
-        'against the real evaluate, plus random programs with nested conditionals; an independent Python EvalScript is the property-level oracle.',
+        'against the real evaluate, plus random programs with nested conditionals; an independent Python EvalScript is the property-level oracle.'
+        ' Environment and sessions: csv_agrees_all_env / cltv_agrees_all_env (every stack and environment), lib_csv_is_bip112 / lib_cltv_is_bip65 in closed form over bit 31, bit 22 '
+        'and the low 16 bits, csv_ignores_stray_sequence_bits; evaluation_session_is_map, session_never_valid_when_core_rejects; interpreter_touches_no_module_state (AST footprint '
+        'of evaluate / Stack / encode_num / Signature.verify regenerated each run: no module- or class-level mutable state, no memoising decorators). Tie: csvbits / cltvenv sweeps over '
+        'the BIP68/112/65 bit structure, ses requests (signature replay under other messages, objects re-evaluated, changing env_data) judged by an own secp256k1 ECDSA over the message of each step.',
    design_ref='DESIGN.md section 6 C19, section 9',
    note='Closed under the global context. Conditionals are proved on the class `structured` (leaves of executed AND non-executed branches in the straight-line '
         'fragment). The only dynamic guard of agree_if is that OP_IF/OP_NOTIF never meets an empty stack (the library raises IndexError there; '
@@ -54,7 +58,11 @@ CHECKS = {
         '= sum of key balances; nothing consumed by a sent transaction is listed), groups_consistent_after_queries, balance_of_value, no_cross_reachable, '
         'select_never_spent, reload_equal. Tie: history differential - random operation sequences on real wallets (sqlite) with several accounts and a second network, '
         'interleaved key ids, sends/sweeps from non-default accounts, against the extracted model after every operation with per-group observations; second Wallet object '
-        'on the same file; failing histories shrunk.',
+        'on the same file; failing histories shrunk.'
+        ' Database level: a file holds several wallets, each with a session view and committed rows: durable_step (after ANY operation, delete included, the committed rows are what '
+        'the live object sees), second_object_reads_live, reload_equal_every_op, db_inv_reachable, db_ledger_consistent, other_wallets_only_marked, delete_reopens_only_its_inputs. '
+        'Tie: the first reading after every library call is taken by a SECOND Wallet object / forked process before the live object is touched; unobserved runs; funding transactions with '
+        'several wallet outputs spent by different transactions then deleted / re-stored / imported; several wallets in one file registering the same outpoints in both orders.',
    design_ref='DESIGN.md section 6 C08, section 9',
    note='Partial: SQLAlchemy session staleness, sqlite isolation and object lifetime are runtime behaviour reached only through the history differential (testing). '
         'inv_step carries the guard op_ok (evaluated by the driver on every real step); excluded classes restore_resets_spent and cross_account_output (one account per '
@@ -75,7 +83,12 @@ CHECKS = {
         ' Hash type: Input.hash_type is modelled (lib_parsed_ht: first signature byte after parse, every kind after fix C02-5; lib_ctor_ht on the constructor path): '
         'verify_uses_signature_hash_type, signature_for_other_hash_type_fails, hash_type_changes_digest (BIP143, all hash types, or a collision of H). Tie: the hash-type byte of every '
         'serialized signature of every input kind is changed in the bytes of raw() (own reader/writer) and on the constructor path; third-party signatures for 02/03/81/82/83/04 made by '
-        'the harness over the independent consensus digest; the oracle is ECDSA over the consensus digest for the byte each signature carries, computed without the library.',
+        'the harness over the independent consensus digest; the oracle is ECDSA over the consensus digest for the byte each signature carries, computed without the library.'
+        ' Parse path and object-vs-bytes: the threshold reader of Input.update_scripts and the attribute read/write sets of raw / signature_segwit / verify are re-translated from the '
+        'source on every run (Gen/GenC02.v): parsed_threshold_is_script_threshold (1 <= m <= 16, and up to 127 after fix C02-7), tree_digest_reads_serialised_attributes, '
+        'write_seen_iff_serialised, input_verdict_is_serialised_verdict, probe_object_is_broadcast (for every single attribute write on a signed transaction the verdict of the '
+        'object equals the consensus verdict on the bytes it would broadcast). Tie: thr requests (m, n in {1,2,14..17,20}, signatures stripped / duplicated / reordered in raw bytes), '
+        'every attribute of Transaction / Input / Output written alone; the oracle judges the BYTES. Known class object_bytes_out_of_sync (attributes read by verify() only).',
    design_ref='DESIGN.md section 6 C02, section 9',
    note='Closed under the global context. ECDSA unforgeability is not claimed: it is the explicit premise bound_to of stale_signatures_fail / tamper_detected (C13 covers '
         'the signature layer). sign_history_* are proved under exactly the guards of the two known completeness findings, each with _refuted Examples: resign_free_all '
@@ -201,7 +214,11 @@ CHECKS = {
         ' Index issuance: next_index_is_highest_plus_one, next_index_ignores_creation_order, no_two_siblings_share_an_index; listings: listing_is_exactly_the_filter; '
         'mnemonic creation: mnemonic_wallet_is_wallet_of_bip39_seed (sentence + passphrase), mnemonic_restore_reproduces_addresses; frozen tables: '
         'network_tables_are_the_documented_ones, structure_table_is_the_documented_one. Tie: the wallet key table is snapshotted and checked after EVERY command '
-        '(out-of-order key_for_path, bulk creation, scan, reopen), creation/restoration matrix incl. mnemonic + password in nine languages, multisig cosigner wallets probed by the oracle.',
+        '(out-of-order key_for_path, bulk creation, scan, reopen), creation/restoration matrix incl. mnemonic + password in nine languages, multisig cosigner wallets probed by the oracle.'
+        ' Reach and refusals (BIP32 derives only downwards): request_outside_reach_refused, handed_out_key_is_at_documented_path_for_requested_type (every configuration: master / '
+        'account-level private / account-level public / single / multisig), request_for_another_witness_type_refused, new_account_needs_the_private_master, '
+        'key_request_guards_are_the_documented_ones (the guards of keys_for_path / new_account regenerated from wallets.py equal a frozen copy). Tie: every wallet configuration x '
+        'every key-handing entry point x fitting and non-fitting arguments, each misfit asked twice; eight known classes of requests the library answers although it should refuse.',
    design_ref='DESIGN.md section 6 C09, section 9',
    note='Density of indices over implicit-only histories and watch-only/full agreement of public keys (needs ckd_commute, C03) are checked by the oracle, not '
         'proved. Multisig key books are C10. Two defects repaired by fix: commits. Closed under the global context.',
